@@ -67,6 +67,10 @@ Inductive keysrc := KOne (k : key) | KSet (ks : list key) | KBad.
 
 Definition nonempty {A} (l : list A) : bool := match l with [] => false | _ => true end.
 
+(* OctKey.import_key(raw octets) / OctBinding.import_from_bytes: the key material is
+   the octets given, every one of them (no stripping, trimming or decoding) *)
+Definition import_oct (given : bytes) : bytes := given.
+
 (* Key.check_use("sig") *)
 Definition check_use (k : key) : res unit :=
   match k_use k with
